@@ -128,6 +128,8 @@ class Graph:
                     ak = attr
                 except TypeError:
                     ak = repr(attr)
+                if op == "Cfg" and x.extra and x.extra.get("root") not in (None, "config"):
+                    exk = exk + (("root", x.extra.get("root")),)     # values of different configuration objects
                 key = (op, ak, tuple(kids), exk)
             v = self._vn_table.get(key)
             if v is None:
